@@ -43,10 +43,11 @@ fn alg_prefix(alg: KeyAlg) -> &'static str {
 		KeyAlg::Rsa2048 => "rsa2048",
 		KeyAlg::Rsa3072 => "rsa3072",
 		KeyAlg::Rsa4096 => "rsa4096",
+		KeyAlg::Rsa6144 => "rsa6144",
 	}
 }
 
-pub const ALL_KEY_ALGS: [KeyAlg; 7] = [
+pub const ALL_KEY_ALGS: [KeyAlg; 8] = [
 	KeyAlg::P256,
 	KeyAlg::P384,
 	KeyAlg::P521,
@@ -54,6 +55,7 @@ pub const ALL_KEY_ALGS: [KeyAlg; 7] = [
 	KeyAlg::Rsa2048,
 	KeyAlg::Rsa3072,
 	KeyAlg::Rsa4096,
+	KeyAlg::Rsa6144,
 ];
 
 pub fn fixtures() -> &'static Fixtures {
@@ -100,6 +102,7 @@ pub fn available_algs() -> Vec<KeyAlg> {
 	let mut v = vec![KeyAlg::P256, KeyAlg::P384, KeyAlg::Ed25519, KeyAlg::Rsa2048, KeyAlg::Rsa3072, KeyAlg::Rsa4096];
 	if cfg!(feature = "aws_be") {
 		v.push(KeyAlg::P521);
+		v.push(KeyAlg::Rsa6144);
 	}
 	v
 }
@@ -113,7 +116,7 @@ pub fn rcgen_alg(k: &KeySpec) -> &'static rcgen::SignatureAlgorithm {
 		#[cfg(not(feature = "aws_be"))]
 		KeyAlg::P521 => panic!("P-521 is not available in this build"),
 		KeyAlg::Ed25519 => &rcgen::PKCS_ED25519,
-		KeyAlg::Rsa2048 | KeyAlg::Rsa3072 | KeyAlg::Rsa4096 => match k.rsa_hash {
+		KeyAlg::Rsa2048 | KeyAlg::Rsa3072 | KeyAlg::Rsa4096 | KeyAlg::Rsa6144 => match k.rsa_hash {
 			RsaHash::Sha256 => &rcgen::PKCS_RSA_SHA256,
 			RsaHash::Sha384 => &rcgen::PKCS_RSA_SHA384,
 			RsaHash::Sha512 => &rcgen::PKCS_RSA_SHA512,
